@@ -191,3 +191,34 @@ def cases(rng, tier):
             # in front of the final snapshot only: the oracles pair every step with the snapshot behind it and read the last output
             c.lines = c.lines[:-1] + ["sim.metrics", c.lines[-1]] if c.lines[-1] == "sim.snap" and c.suite != "straight" else c.lines
         yield c
+
+
+def _metrics_oracle(c, op, snapname, fields):
+    """the counter lines of the metrics text denote the counters of the state (the snapshot next to the call)"""
+    outs = list(zip(c.lines, c.impl_out))
+    for k, (l, o) in enumerate(outs):
+        if l != op or not o or o.startswith(("X", "bad")):
+            continue
+        near = next((oo for ll, oo in outs[k + 1:k + 2] if ll == snapname), None) or next((oo for ll, oo in reversed(outs[:k]) if ll == snapname), None)
+        if near is None:
+            continue
+        d = {}
+        for part in near.split("|"):
+            a, _, b = part.partition("=")
+            d.setdefault(a, b)
+        try:
+            shown = [bytes.fromhex(x).decode() for x in o.split("|")]
+        except ValueError:
+            continue
+        want = [f"{label}: {d[key]}{trail}" for label, key, trail in fields if key in d]
+        if len(want) == len(fields) and shown != want:
+            return [Failure("oracle", PROP, f"the performance-metrics text shows {shown}; the counters of the state are {want}", "metrics:text")]
+    return []
+
+_METRICS = ("sim.metrics", "sim.snap", [("instructions", "ins", " "), ("branches", "br", ""), ("procedures", "pr", ""), ("cycles", "cyc", ""), ("stalls", "st", ""), ("flushes", "fl", "")])
+
+_oracle_nometrics = oracle
+
+
+def oracle(c):
+    return _oracle_nometrics(c) or _metrics_oracle(c, *_METRICS)
